@@ -53,6 +53,7 @@ REG.ghost('spawned', List(SP_T))      # background tasks started, in order
 REG.ghost('slept', REAL)              # total time-out the monitor asked Event.wait for
 REG.ghost('now', REAL)                # ghost clock (time.time())
 REG.ghost('reads', List(INT))         # sizes passed to wsgi.input.read
+REG.ghost('bodies', List(BYTES))      # the byte strings wsgi.input.read returned
 REG.ghost('received', List(Ref('Packet')))   # packets handed to Socket.receive, in order
 from pyvc.lib_rt import FR_T  # noqa: E402
 REG.ghost('ws_log', List(FR_T))       # frames read from / written to the WebSocket, interleaved
